@@ -25,17 +25,19 @@ def lemma_task(qual, variants, mk_args, removed_arg=None):
             me = verify.mk_circuit(ex, st0, "self", wf=False)
             pin = ctx.template(("", ".", ""))
             g0, bb0 = st0.g(me), st0.bb(me)
-            st0.pc.append(spec.wired(ctx, g0, bb0, pin))
+            # R: the pin nodes the caller removed earlier in the history (arbitrary set: the stated exception)
+            R = ctx.arr_nb("removed_by_caller")
+            st0.pc.append(spec.wired(ctx, g0, bb0, pin, lambda n, R=R: z3.Select(R, n)))
             args, kwargs = mk_args(ex, vname)
             outs = verify.run_summary(ex, ALL_SUMMARIES[qual], st0, me, args, kwargs)
             n_feasible = 0
             for i, o in enumerate(outs):
                 i = o.st.pathid()
                 g1, bb1 = o.st.g(me), o.st.bb(me)
-                removed = None
+                removed = lambda n, R=R: z3.Select(R, n)
                 if removed_arg is not None:
                     c = layer1._names(ex, args[removed_arg])
-                    removed = lambda n, c=c: c.mem(n)
+                    removed = lambda n, c=c, R=R: z3.Or(z3.Select(R, n), c.mem(n))
                 what = "raise(" + str(o.exc) + ")" if o.kind == "raise" else "return"
                 parts = [("graph-invariant", g1.wf(ctx)), ("typed", spec.typed(ctx, g1)), ("wiring", spec.wired_edges(ctx, g1)),
                          ("registry", spec.registry_ok(ctx, g1, bb1, pin, removed))]
@@ -66,9 +68,12 @@ def lemma_add_subcircuit(variants):
             sc = verify.mk_circuit(ex, st0, "sc", wf=False)
             pin = ctx.template(("", ".", ""))
             g0, bb0 = st0.g(me), st0.bb(me)
-            st0.pc.append(spec.wired(ctx, g0, bb0, pin))
-            st0.pc.append(spec.wired(ctx, st0.g(sc), st0.bb(sc), pin))
+            R, Rc = ctx.arr_nb("removed_by_caller"), ctx.arr_nb("removed_in_child")
+            st0.pc.append(spec.wired(ctx, g0, bb0, pin, lambda n, R=R: z3.Select(R, n)))
+            st0.pc.append(spec.wired(ctx, st0.g(sc), st0.bb(sc), pin, lambda n, Rc=Rc: z3.Select(Rc, n)))
             name = NameV(ctx.fresh_name("name"))
+            pre_, unpre_ = layer2.prefix_fn(ex, name)
+            removed_after = lambda n, R=R, Rc=Rc: z3.Or(z3.Select(R, n), z3.And(n == pre_(unpre_(n)), z3.Select(Rc, unpre_(n))))
             conns = NONE
             if nconn:
                 items = [(ctx.fresh_name(f"key{k}"), NameV(ctx.fresh_name(f"net{k}"))) for k in range(nconn)]
@@ -82,7 +87,7 @@ def lemma_add_subcircuit(variants):
                 g1, bb1 = o.st.g(me), o.st.bb(me)
                 what = "raise(" + str(o.exc) + ")" if o.kind == "raise" else "return"
                 parts = [("graph-invariant", g1.wf(ctx)), ("typed", spec.typed(ctx, g1)), ("wiring", spec.wired_edges(ctx, g1)),
-                         ("registry", spec.registry_ok(ctx, g1, bb1, pin, None))]
+                         ("registry", spec.registry_ok(ctx, g1, bb1, pin, removed_after))]
                 for lab, f in parts:
                     ctx.oblige(f"{label}/wired#{i}:{what}:{lab}", o.st.pc, f, "lemma")
                 if o.kind == "raise":
@@ -144,7 +149,8 @@ def setter_on_body(qual, param, shapes):
             me = verify.mk_circuit(ex, st0, "self", wf=False)
             pin = ctx.template(("", ".", ""))
             g0, bb0 = st0.g(me), st0.bb(me)
-            st0.pc.append(spec.wired(ctx, g0, bb0, pin))
+            R = ctx.arr_nb("removed_by_caller")
+            st0.pc.append(spec.wired(ctx, g0, bb0, pin, lambda n, R=R: z3.Select(R, n)))
             bind = {"self": me, param: _arg(ex, shape, "ns"), "output": ex.ctx.fresh("flag", z3.BoolSort())}
             n_ret = n_exc = 0
             for o in verify.bind_and_run(ex, fn, st0, bind):
@@ -152,7 +158,7 @@ def setter_on_body(qual, param, shapes):
                 g1, bb1 = o.st.g(me), o.st.bb(me)
                 what = "raise(" + str(o.exc) + ")" if o.kind == "raise" else "return"
                 for lab, f in [("graph-invariant", g1.wf(ctx)), ("typed", spec.typed(ctx, g1)), ("wiring", spec.wired_edges(ctx, g1)),
-                               ("registry", spec.registry_ok(ctx, g1, bb1, pin, None))]:
+                               ("registry", spec.registry_ok(ctx, g1, bb1, pin, lambda n, R=R: z3.Select(R, n)))]:
                     ctx.oblige(f"{label}/wired#{i}:{what}:{lab}", o.st.pc, f, "post")
                 ctx.oblige(f"{label}/edges-unchanged#{i}:{what}", o.st.pc, spec.same_edges(ctx, g1, g0), "post")
                 if o.kind == "raise":
